@@ -48,6 +48,12 @@ ASSUMPTIONS = [
 ]
 
 POOL = [
+    # strings that hold the other quote character: short, longer than half a line,
+    # longer than a line, with a control character, as a sequence element
+    "NOTE = 'The \"raw\" counts are stored as 16-bit integers in this file'\n"
+    "SHORT = 'a \"b\" c'\nWORD = '\"'\nAPOS = \"it's a 'quoted' word that goes on for more than forty characters\"\n",
+    "LIST = ('say \"hi\" to the instrument team and to everybody else who reads this', 'x')\n"
+    "LONG = 'The \"raw\" counts " + "and more words " * 8 + "end'\nCTRL = 'a \"\x07\" b'\n",
     "t = 12:30:60\nu = 2001-01-01T23:59:60.5Z\nv = 1999-365T23:59:60\n",
     "s = (1, 2, 3) <m>\nq = {a, b} <km/s>\nn = ((1, 2), (3, 4)) <deg>\n",
     "begin_object = o\n  Begin_Group = g\n    a = TrUe\n    b = nUlL\n  End_Group\nEND_OBJECT = o\neNd\n",
